@@ -139,10 +139,21 @@ def make_system(spec):
         for t in types:
             sys_.density[t] = spec['density'][t]
             sys_.diameter[t] = spec['diameter'][t]
+    plist = [spec['pairs'][pair_key(types, a, b)] for a, b in pairs_of(types)]
+    same = all(q['closure'] == plist[0]['closure'] and q['potential'] == plist[0]['potential'] for q in plist)
+    bulk = spec.get('style') if (spec.get('style') in ('bulk-list', 'bulk-setunset') and same) else None
+    if bulk == 'bulk-list':
+        # one statement for the whole table, as in the documentation: sys.closure[sys.types, sys.types] = PercusYevick()
+        sys_.closure[types, types] = make_closure(plist[0]['closure'])
+        sys_.potential[types, types] = make_potential(plist[0]['potential'])
+    elif bulk == 'bulk-setunset':
+        sys_.closure.setUnset(make_closure(plist[0]['closure']))
+        sys_.potential.setUnset(make_potential(plist[0]['potential']))
     for a, b in pairs_of(types):
         p = spec['pairs'][pair_key(types, a, b)]
-        sys_.closure[a, b] = make_closure(p['closure'])
-        sys_.potential[a, b] = make_potential(p['potential'])
+        if bulk is None:
+            sys_.closure[a, b] = make_closure(p['closure'])
+            sys_.potential[a, b] = make_potential(p['potential'])
         sys_.omega[a, b] = make_omega(p['omega'], sys_.domain.k)
     return sys_
 
